@@ -97,7 +97,9 @@ func (b *vfc24Body) Close() error { return nil }
 
 type vfc24Tenants struct{ env *vfc24Env }
 
-func (t vfc24Tenants) TenantAppendable(string) (Appendable, error) { return vfc24Appendable{t.env}, nil }
+func (t vfc24Tenants) TenantAppendable(string) (Appendable, error) {
+	return vfc24Appendable{t.env}, nil
+}
 
 type vfc24Appendable struct{ env *vfc24Env }
 
@@ -492,6 +494,9 @@ func TestVF_C24(t *testing.T) {
 		}
 		rng := r.Rand(c)
 		max := 1 + rng.Intn(4)
+		// A panic outside the handler goroutines (e.g. in a goroutine the handler started) kills the
+		// process: the driver then reports the schedule in flight as the witness ("never crash the receiver").
+		fmt.Printf("VF-INFLIGHT C24 schedule case=%d seed=%d max_concurrency=%d\n", c, r.Seed(), max)
 		var kinds []string
 		label := ""
 		switch rng.Intn(5) {
